@@ -476,3 +476,31 @@ Proof.
   replace (k * b + b - 1) with (k * b + (b - 1)) by lia.
   rewrite Z.div_add_l by lia. rewrite Z.div_small by lia. lia.
 Qed.
+
+(* before Start succeeds there is no acquisition loop *)
+Definition NotStartedInv (s : sstate) : Prop :=
+  (s_phase s = SUninit \/ s_phase s = SProvisioned) -> s_loop s = SOff.
+
+Lemma notstarted_step c s l s' o : NotStartedInv s -> sstep c s l = Some (s', o) -> NotStartedInv s'.
+Proof.
+  intros HI H.
+  destruct l; simpl in H; unfold_sstep H.
+  all: try (cases_in H; try some_inv H; unfold NotStartedInv, calc, at_top, loop_running in *; simpl in *;
+            bool_hyps; intros X; try (destruct X; congruence); try (apply HI; assumption);
+            try (apply HI; tauto); fail).
+  all: cases_in H; try some_inv H; unfold NotStartedInv, calc, at_top, loop_running in *; simpl in *;
+    bool_hyps; intros X; try (destruct X; congruence); try (apply HI; tauto);
+    destruct (s_loop s) eqn:EL; try discriminate; try reflexivity;
+    try (assert (Y : SOff = SOff) by reflexivity; specialize (HI X); congruence).
+Qed.
+
+Lemma notstarted_time c s t s' o : NotStartedInv s -> sstep c s (STime t) = Some (s', o) -> NotStartedInv s'.
+Proof. apply notstarted_step. Qed.
+
+Lemma lease_ret_frame c s lt s' o :
+  sstep c s (SILeaseRet lt) = Some (s', o) ->
+  s_now s' = s_now s /\ exists p t, s_loop s = SCalling p t.
+Proof.
+  simpl. unfold do_lease_ret. intro H. destruct (s_loop s) eqn:L; try discriminate.
+  split; [|eauto]. cases_in H; some_inv H; unfold calc; reflexivity.
+Qed.
